@@ -126,7 +126,65 @@ func (m *machine) renderTyped(fr *frame, verb byte, t types.Type, v value) *Term
 
 // format implements Sprintf; returns the text and the operands of %w verbs.
 func (m *machine) format(fr *frame, format value, args []value) (*Term, []iface) {
+	if ft, ok := format.(*Term); ok && ft.Op != "cs" {
+		return m.formatSymbolic(fr, ft, args)
+	}
 	f := concreteStr(format, "format string")
+	return m.formatConcrete(fr, f, args)
+}
+
+// formatSymbolic: a format string that is a concatenation of constants and
+// symbolic pieces free of '%' (a symbolic piece containing '%' is outside the
+// bound): the symbolic pieces are literal text.
+func (m *machine) formatSymbolic(fr *frame, ft *Term, args []value) (*Term, []iface) {
+	var out []*Term
+	var wrapped []iface
+	argi := 0
+	for _, p := range concatParts(ft) {
+		if p.Op != "cs" {
+			if m.truth(fromTerm(mkContains(p, mkStr("%")))) {
+				panic(cut{"format string with a symbolic part containing '%' (outside bound)"})
+			}
+			out = append(out, p)
+			continue
+		}
+		// count the verbs of this constant piece to hand it the right operands
+		n := 0
+		for i := 0; i < len(p.S); i++ {
+			if p.S[i] == '%' {
+				if i+1 < len(p.S) && p.S[i+1] == '%' {
+					i++
+					continue
+				}
+				n++
+			}
+		}
+		hi := argi + n
+		if hi > len(args) {
+			hi = len(args)
+		}
+		sub := args[argi:hi]
+		if n > len(sub) {
+			// missing operands are reported by the concrete formatter
+		}
+		t, w := m.formatConcreteN(fr, p.S, sub, n)
+		out = append(out, t)
+		wrapped = append(wrapped, w...)
+		argi = hi
+	}
+	if argi < len(args) {
+		out = append(out, mkStr("%!(EXTRA ...)"))
+	}
+	return mkConcat(out...), wrapped
+}
+
+func (m *machine) formatConcrete(fr *frame, f string, args []value) (*Term, []iface) {
+	return m.formatConcreteN(fr, f, args, -1)
+}
+
+// formatConcreteN formats with a concrete format string; when expect >= 0 the
+// piece is part of a larger format and surplus operands are not reported here.
+func (m *machine) formatConcreteN(fr *frame, f string, args []value, expect int) (*Term, []iface) {
 	var parts []*Term
 	var wrapped []iface
 	argi := 0
@@ -204,7 +262,7 @@ func (m *machine) format(fr *frame, format value, args []value) (*Term, []iface)
 			panic(cut{"unsupported format verb %" + string(verb)})
 		}
 	}
-	if argi < len(args) {
+	if argi < len(args) && expect < 0 {
 		parts = append(parts, mkStr("%!(EXTRA ...)"))
 	}
 	return mkConcat(parts...), wrapped
